@@ -9,7 +9,8 @@ EXPLANATION = ('Built with all three I/O features. Per save function (value-flow
                '(none unwrapped, expected or dropped); flush / finish / close on the writer is the last writer operation before Ok(()). Byte-level round trips through the '
                'external readers are not decided.')
 TECHNIQUE = 'value-flow sequence terms (labels vs values), affine offset forms, result-discipline and ordering rules over the evaluated bodies'
-FALLIBLE = ('std::fs::File::create', 'csv::Writer::write_record', 'csv::Writer::flush', 'arrow::array::RecordBatch::try_new', 'arrow::arrow_ipc::writer::FileWriter::try_new',
+TRUNCATING_OPENS = ('std::fs::File::create', 'csv::Writer::from_path')      # csv::Writer::from_path is documented as File::create + from_writer (truncates)
+FALLIBLE = ('std::fs::File::create', 'csv::Writer::from_path', 'csv::Writer::write_record', 'csv::Writer::flush', 'arrow::array::RecordBatch::try_new', 'arrow::arrow_ipc::writer::FileWriter::try_new',
             'arrow::arrow_ipc::writer::FileWriter::write', 'arrow::arrow_ipc::writer::FileWriter::finish', 'parquet::arrow::ArrowWriter::try_new', 'parquet::arrow::ArrowWriter::write',
             'parquet::arrow::ArrowWriter::close')
 FIELD = 'arrow::datatypes::Field::new'
@@ -36,9 +37,9 @@ def errdisc(ctx, pfx, A, ev, sp, closer):
     ctx.check(pfx + '.errdisc', A, 'errors', not bad and not unw and len(calls) >= 3, expected='every fallible call propagated with `?` (or map_err + ?); nothing unwrapped/expected/dropped',
               found='%d fallible calls; %s' % (len(calls), '; '.join(bad + ['unwrap at %s' % d[2] for d in unw]) or 'all propagated'), sp=sp,
               why='a path that cannot be written must yield an error, not a panic or a partial success')
-    opens = [e for e in ev.vf.events if (e.key or '').startswith('std::fs::')]
-    ctx.check(pfx + '.open_truncates', A, 'open', len(opens) == 1 and opens[0].key == 'std::fs::File::create' and not opens[0].pc and not opens[0].loops,
-              expected='the output is opened exactly once with File::create (creates or TRUNCATES)', found=', '.join(e.key for e in opens) or 'no file opened', sp=sp,
+    opens = [e for e in ev.vf.events if (e.key or '').startswith('std::fs::') or e.key in TRUNCATING_OPENS]
+    ctx.check(pfx + '.open_truncates', A, 'open', len(opens) == 1 and opens[0].key in TRUNCATING_OPENS and not opens[0].pc and not opens[0].loops,
+              expected='the output is opened exactly once with File::create (creates or TRUNCATES) or a documented wrapper of it', found=', '.join(e.key for e in opens) or 'no file opened', sp=sp,
               why='an existing longer file opened without truncation keeps its tail (e.g. the old Parquet footer): a reader then sees the previous export although Ok was returned')
     b_ = ev.body
     ns = narrowing_sites(ctx, [b_])
